@@ -115,6 +115,16 @@ def venn (sorters : List (List Spike)) (sbin cbin nch chunk : Nat) : Res (List N
 /-- `int(0.4 * fs / 1000)` in IEEE double arithmetic, as Python computes it. -/
 def defaultSbin (fs : Nat) : Nat := (0.4 * fs.toFloat / 1000.0).floor.toUInt64.toNat
 
+/-- `int(0.4 * fs / 1000)` read over the rationals (`0.4 = 2/5`): `⌊2·fs / 5000⌋` (equal to `defaultSbin` for every
+`fs ≤ 400 000`, compared on every run; this is the reading the translator tie proves equal to the source). -/
+def defaultSbinQ (fs : Nat) : Nat := 2 * fs / 5000
+
+/-- `num_chunks = int((max_samples // chunk_size) + 1)`: the `List.range` bound of `venn`. -/
+def numChunks (mx chunk : Nat) : Nat := mx / chunk + 1
+
+/-- `sample_offset = ch * chunk_size`: the offset `venn` hands to `chunkColumns` for chunk `ch`. -/
+def chunkOffset (ch chunk : Nat) : Nat := ch * chunk
+
 /-- The public entry with Python's defaults: a falsy bin size / chunk size selects the default. -/
 def vennDefaults (sorters : List (List Spike)) (sbin cbin fs nch chunk : Nat) : Res (List Nat) :=
   venn sorters (if sbin = 0 then defaultSbin fs else sbin) cbin nch (if chunk = 0 then 20 * fs else chunk)
